@@ -89,6 +89,8 @@ Proof.
     + intros c cl A. unfold get_client, init in A. cbn in A. destruct c; discriminate.
     + intros t k c cur A. apply P in A. discriminate.
     + intros c cl t A. unfold get_client, init in A. cbn in A. destruct c; discriminate.
+    + intros c cl A. unfold get_client, init in A. cbn in A. destruct c; discriminate.
+    + intros t k c cur cl A. apply P in A. discriminate.
   - constructor.
     + intros t p n c cur A. apply P in A. discriminate.
     + intros t p rh c A. apply P in A. discriminate.
